@@ -577,7 +577,7 @@ theorem C05_reread_add_fill (d0 : DocS) (hwf : d0.WF) (d : Doc) (hd : d.kids = d
   have hh : (addParagraph d).handles[d.handles.length]? = some (some (d.kids.length + sep.length)) := by
     simp only [addParagraph, insertEmptyParagraph, shiftIns]
     rw [List.getElem?_append_right (by simp)]
-    simp [filter_isNode_all _ hn, hseplen]
+    simp [filter_isNode_all _ hn, hseplen, hlenT]
   have hslot : (addParagraph d).kids[d.kids.length + sep.length]? = some (.node .PARAGRAPH []) := by
     rw [hk1, List.getElem?_append_right (by simp [hlenT])]
     simp [hlenT]
